@@ -12,7 +12,7 @@ use flsrc::eval::Evaluator;
 use refchess::{sq_of, Color, Kind, Pos};
 use serde_json::{json, Value};
 
-pub const RULE: &str = "one long-lived Evaluator fed a generated sequence of 2..60 positions (C01 mixture + extreme-material family: up to nine queens/all men vs bare king, both colours, all phases). Oracle (algebraic laws): value from the long-lived evaluator == value from a fresh Evaluator::new() == value on immediate re-evaluation (purity); eval(side-to-move swapped) == -eval exactly; eval(rank-mirrored, colours and side exchanged) == eval; |eval| < 32767 (maximum reported). Non-trivial = material unbalanced or placement not mirror-symmetric; distinct by FEN. Enumerated part 'material': every material signature with up to three men besides the king on each side (56 x 56 multisets of P N B R Q) in 60 (thorough 400) derived placements each, a whole row of signatures through one evaluator, same laws. Marathons: one evaluator fed 150 k (1.5 M thorough) generated positions with ever new pawn structures, each value compared with a fresh evaluator.";
+pub const RULE: &str = "one long-lived Evaluator fed a generated sequence of 2..60 positions (C01 mixture + extreme-material family: up to nine queens/all men vs bare king, both colours, all phases). Oracle (algebraic laws): value from the long-lived evaluator == value from a fresh Evaluator::new() == value on immediate re-evaluation (purity); eval(side-to-move swapped) == -eval exactly; eval(rank-mirrored, colours and side exchanged) == eval; |eval| < 32767 (maximum reported). Non-trivial = material unbalanced or placement not mirror-symmetric; distinct by FEN. Enumerated part 'material': every material signature with up to three men besides the king on each side (56 x 56 multisets of P N B R Q) in 60 (thorough 400) derived placements each, a whole row of signatures through one evaluator followed by the extreme counts promotions can produce (8..10 men of one kind), same laws. In every sequence each position is followed, on the same evaluator, by an occupancy twin (same squares, same colours, one man of another kind) and by itself again. Marathons: one evaluator fed 150 k (1.5 M thorough) generated positions with ever new pawn structures, each value compared with a fresh evaluator.";
 
 pub const BOUND: i32 = 32767;
 
@@ -93,6 +93,9 @@ pub fn judge_sequence(seq: &[(Pos, &'static str)], stats: &mut Stats) -> Verdict
     let r = judge_sequence_inner(seq, &mut long_lived, &mut seen, stats);
     r.map_err(|mut f| {
         let mut fens: Vec<String> = seen.iter().map(|x| x.0.clone()).collect();
+        if let Some(x) = f.detail.get("evaluated_right_after").and_then(|x| x.as_str()) {
+            fens.push(x.to_string());
+        }
         if let Some(x) = f.detail.get("fen").and_then(|x| x.as_str()) {
             fens.push(x.to_string());
         }
@@ -113,6 +116,34 @@ fn judge_sequence_inner(seq: &[(Pos, &'static str)], long_lived: &mut Evaluator,
         stats.eval();
         if v != v_fresh || v != v_again {
             return Err(Failure::new("impure", json!({"fen": fen, "index_in_sequence": i, "long_lived": v, "again": v_again, "fresh": v_fresh, "sequence_before": seen.iter().map(|x| x.0.clone()).collect::<Vec<_>>()})));
+        }
+        // an occupancy twin right afterwards on the same evaluator: the same squares held by the same
+        // colours, one man of another kind (what the promotion alternatives of one pawn look like
+        // to an evaluator that is called on them back to back), then the original once more
+        {
+            let h = crate::stats::hash_of(&(&fen, i));
+            let cands: Vec<u8> = (0..64u8).filter(|q| matches!(p.sq[*q as usize], Some((_, k)) if k != Kind::K)).collect();
+            if !cands.is_empty() {
+                let q = cands[(h % cands.len() as u64) as usize];
+                let (c, k) = p.sq[q as usize].unwrap();
+                let kinds = [Kind::P, Kind::N, Kind::B, Kind::R, Kind::Q];
+                let nk = kinds[((h >> 8) % 5) as usize];
+                if nk != k && !(nk == Kind::P && (q < 8 || q >= 56)) {
+                    let mut t = p.clone();
+                    t.sq[q as usize] = Some((c, nk));
+                    t.ep = None;
+                    t.castle = [false; 4];
+                    let tb = guarded("Board::new", || eng::to_board(&t))?;
+                    let tv = guarded("evaluate", || long_lived.evaluate(&tb))?;
+                    let tf = guarded("evaluate", || Evaluator::new().evaluate(&tb))?;
+                    let back = guarded("evaluate", || long_lived.evaluate(&b))?;
+                    stats.eval();
+                    if tv != tf || back != v {
+                        return Err(Failure::new("impure", json!({"fen": eng::fen(&t), "evaluated_right_after": fen, "long_lived": tv, "fresh": tf, "original_again": back, "original_first": v, "index_in_sequence": i, "sequence_before": seen.iter().map(|x| x.0.clone()).collect::<Vec<_>>(), "twin_after": eng::fen(&t)})));
+                    }
+                    stats.class("occupancy_twin_evaluated_right_after_its_original");
+                }
+            }
         }
         if let Some((_, old)) = seen.iter().find(|(f, _)| *f == fen) {
             if *old != v {
@@ -320,6 +351,27 @@ fn judge_material_row(wi: usize, sigs: &[Vec<Kind>], variants: u64, stats: &mut 
         for v in 0..variants {
             if let Some(p) = material_position(&sigs[wi], b, v * 977 + wi as u64) {
                 seq.push((p, "material"));
+            }
+        }
+    }
+    // ... and at the end of the row (the evaluator has seen every small signature of this row by
+    // then) the extreme counts a game can reach by promotions: 8, 9 and 10 men of one kind on one
+    // side against a bare king or a single man, both colours
+    for kind in [Kind::N, Kind::B, Kind::R, Kind::Q] {
+        for count in [8usize, 9, 10] {
+            if kind == Kind::Q && count == 10 {
+                continue;
+            }
+            for other in [vec![], vec![Kind::P], vec![Kind::Q]] {
+                let many = vec![kind; count];
+                for v in 0..2u64 {
+                    if let Some(p) = material_position(&many, &other, v * 131 + count as u64 + wi as u64) {
+                        seq.push((p, "extreme"));
+                    }
+                    if let Some(p) = material_position(&other, &many, v * 137 + count as u64 + wi as u64) {
+                        seq.push((p, "extreme"));
+                    }
+                }
             }
         }
     }
